@@ -40,6 +40,15 @@ def check(state, ev, ctx, obs):
             # ManualStop: "sets the ConnectRetryTimer to zero", drops the connection - nothing may be left armed that
             # could make the agent act before the operator starts it again
             return False
+        if st == IDLE and state != IDLE and ev != 'manual_stop' and obs['close'] == 0 and not ctx.get('closing_pending'):
+            # profile: IdleHold / automatic restart on.  A session that ends without the agent having anything left to
+            # close (the peer dropped the connection, the attempt failed) arms the IdleHoldTimer right away
+            if tm['idle_hold'] is None:
+                return False
+        if state == OPENCONFIRM and st == ESTABLISHED and ev == 'ka' and ctx.get('hold'):
+            # OpenConfirm / KeepAliveMsg: "restarts the HoldTimer and changes its state to Established"
+            if tm['hold'] != ctx['hold']:
+                return False
         if state == ESTABLISHED and st == ESTABLISHED and ev in ('ka', 'upd', 'upd_bad') and ctx.get('hold'):
             # events 26 / 27: "restarts its HoldTimer, if the negotiated HoldTime value is non-zero"
             if tm['hold'] != ctx['hold']:
